@@ -19,6 +19,11 @@ RULE = ('complete table: renamed / same-name deprecation x new and old '
         'whose old-name override is textually the deprecated default are '
         'unconstrained and skipped.  case = one configuration; non-trivial = '
         'an override present or differing defaults.')
+RULE += (
+         ' Old-name override choices include the text of the new and of'
+         ' the old default; location dironly has no main policy file;'
+         ' after every row with an old-name override the override is'
+         ' removed on the same enforcer and the row without it must hold.')
 ASSUMPTIONS = ['check-string menu replaces the random expression generator',
                'R-depr reference table below']
 
@@ -126,12 +131,13 @@ def run(job, seed):
                     old_choices.append(c)
         for end, new_ovr, old_ovr, loc, noise in itertools.product(
                 (False, True), [None] + ovr, old_choices,
-                ('main', 'dir', 'split'), (False, True)):
+                ('main', 'dir', 'split', 'dironly'), (False, True)):
             if loc == 'split' and (new_ovr is None or old_ovr is None):
                 continue
             if noise and loc != 'main':
                 continue
             files = {'policy.yaml': {}, 'd1/o.yaml': {}}
+            # dironly: there is no main policy file at all
             f_new = 'policy.yaml' if loc == 'main' else 'd1/o.yaml'
             f_old = 'policy.yaml' if loc in ('main', 'split') else 'd1/o.yaml'
             if new_ovr is not None:
@@ -144,8 +150,8 @@ def run(job, seed):
             try:
                 w.mkdir('d1')
                 for rel, body in files.items():
-                    if body or rel == 'policy.yaml':
-                        w.write(rel, world.dumps_policy(body))
+                    if body or (rel == 'policy.yaml' and loc != 'dironly'):
+                        w.write(rel, world.dumps_policy(body, 'json'))
                 conf = world.new_conf(w.root, policy_dirs=['d1'],
                                       enforce_new_defaults=end)
                 enf = P.Enforcer(conf)
@@ -199,6 +205,36 @@ def run(job, seed):
                             exp[i], got[i], 'table')
                     acc.outcome('row-%s-%s-%s' % (novr is not None,
                                                   old_ovr is not None, end))
+                # ... and then the operator takes the old-name override out
+                # again: the row without it applies (same long-lived enforcer)
+                if old_ovr is not None and two is not True and not noise:
+                    del files[f_old][old]
+                    w.write(f_old, world.dumps_policy(files[f_old], 'json'))
+                    exp = ref_new(N, O, end, new_ovr, None, renamed, new1)
+                    if exp is not None:
+                        acc.case('table', True)
+                        acc.ev(16)
+                        got = decide_vec(enf, new1)
+                        if got != exp:
+                            i = [g != e for g, e in zip(got, exp)].index(True)
+                            acc.violation(
+                                'removed-old-override|%s|end=%s|new_ovr=%s|%s'
+                                % (loc, end, new_ovr is not None,
+                                   'allows' if got[i] is True else 'denies'
+                                   if got[i] is False else got[i]),
+                                'after the override %r under the old name '
+                                'was removed from %s, %s decides %r for '
+                                'roles %s; without that override the table '
+                                'says %r' % (old_ovr, f_old, new1, got[i],
+                                             sorted(SUBSETS[i]), exp[i]),
+                                {'renamed': renamed, 'two': two,
+                                 'new_default': N, 'old_default': O,
+                                 'enforce_new_defaults': end,
+                                 'new_override': new_ovr,
+                                 'old_override': old_ovr, 'location': loc,
+                                 'then': 'old override removed'},
+                                exp[i], got[i], 'table')
+                        acc.outcome('row-after-removal-%s' % end)
             finally:
                 w.destroy()
     acc.sample('table', {'new_default': N, 'old_default': O})
